@@ -184,6 +184,16 @@ IStep(m, B, jt, ar, P, v) ==
       [] o = "bron"  -> IF Len(m1.vs) = 0 THEN Stuck(m1)
                         ELSE IF Top(m1.vs) = 0 THEN IBranch([m1 EXCEPT !.vs = Pop(@)], B, jt, P, ar, i, c.d)
                         ELSE EmitP(nx, Fire(P, "after", s) \o Fire(P, "semantic_after", s))
+      \* DESIGN 10.1 (model side only so far): a taken branch fires like `br`, a fall-through like a plain instruction
+      [] o = "bronn" -> IF Len(m1.vs) = 0 THEN Stuck(m1)
+                        ELSE IF Top(m1.vs) # 0 THEN IBranch(m1, B, jt, P, ar, i, c.d)
+                        ELSE EmitP([nx EXCEPT !.vs = Pop(@)], Fire(P, "after", s) \o Fire(P, "semantic_after", s))
+      [] o = "brc"   -> IF Len(m1.vs) = 0 THEN Stuck(m1)
+                        ELSE IF Top(m1.vs) # 0 THEN IBranch(m1, B, jt, P, ar, i, c.d)
+                        ELSE EmitP(nx, Fire(P, "after", s) \o Fire(P, "semantic_after", s))
+      [] o = "brcf"  -> IF Len(m1.vs) = 0 THEN Stuck(m1)
+                        ELSE IF Top(m1.vs) = 0 THEN IBranch(m1, B, jt, P, ar, i, c.d)
+                        ELSE EmitP(nx, Fire(P, "after", s) \o Fire(P, "semantic_after", s))
       [] o = "return"      -> IReturn(m1, P, ar)
       [] o = "unreachable" -> Trap(EmitP(m1, Fire(P, "func_exit", -1)))
       [] o = "throw"       -> Trap(EmitP(m1, Fire(P, "func_exit", -1)))
